@@ -112,9 +112,9 @@ Definition mem_N (l : list N) (x : N) : bool := existsb (N.eqb x) l.
 Definition hidden_ids (fs : fsys) (hide : list bytes) : list N :=
   flat_map (fun h => match fs_open fs h with Some hn => [n_id hn] | None => [] end) hide.
 
-(* Accept-Encoding: strings.Split(",") then TrimSpace then exact comparison *)
-Definition is_space (c : N) : bool :=
-  (c =? 32) || (c =? 9) || (c =? 10) || (c =? 13) || (c =? 11) || (c =? 12).
+(* Accept-Encoding: strings.Split(",") then strings.Trim(acc, " \t") (SP / HTAB, the optional
+   white space HTTP allows around a list element) then exact comparison *)
+Definition is_space (c : N) : bool := (c =? 32) || (c =? 9).
 Fixpoint drop_spaces (l : bytes) : bytes :=
   match l with c :: r => if is_space c then drop_spaces r else l | [] => [] end.
 Definition trim_spaces (s : bytes) : bytes := rev (drop_spaces (rev (drop_spaces s))).
@@ -378,10 +378,12 @@ Definition seteq_b (a b : list bytes) : bool := forallb (mem_b b) a && forallb (
 Definition count_kind (dir : bool) (l : list node) : N :=
   N.of_nat (length (filter (fun k => Bool.eqb (n_dir k) dir) l)).
 
-(* what an HTML listing of directory d announces: directoryListing counts every entry of the
-   directory, then passes over the hidden ones *)
-Definition announced_counts (fs : fsys) (d : bytes) : N * N :=
-  (count_kind true (children fs d), count_kind false (children fs d)).
+(* what an HTML listing of directory d announces: directoryListing passes over the hidden entries
+   of the directory first and counts the ones it lists (dirCount / fileCount are incremented in
+   the same loop pass that appends the entry) *)
+Definition announced_counts (fs : fsys) (hide : list bytes) (d : bytes) : N * N :=
+  let vis := visible_kids fs hide (children fs d) in
+  (count_kind true vis, count_kind false vis).
 
 Definition agree (s : site) (r : request) (o : obs) : bool :=
   let body := negb (q_meth r =? 1) in                     (* HEAD answers carry no body *)
@@ -416,10 +418,10 @@ Definition agree (s : site) (r : request) (o : obs) : bool :=
           if (0 <? lim) && (lim <=? N.of_nat (length names))
           then forallb (mem_b names) (o_names o) && (N.of_nat (length (o_names o)) =? lim)
           else seteq_b (o_names o) names) &&
-         (* the numbers an HTML listing announces are counted BEFORE the IsHidden test *)
+         (* the numbers an HTML listing announces are counted AFTER the IsHidden test *)
          match o_counts o with
          | [] => true
-         | [nd; nf] => (nd =? fst (announced_counts (s_fs s) d)) && (nf =? snd (announced_counts (s_fs s) d))
+         | [nd; nf] => let ac := announced_counts (s_fs s) (s_hide s) d in (nd =? fst ac) && (nf =? snd ac)
          | _ => false
          end
        else (o_kind o =? 0) && seteq_b (o_names o) [])
